@@ -239,7 +239,8 @@ def std_cases(tier, seed, caps=None, cross_all=False):
     cases += cc if (tier == "thorough" or cross_all) else rnd.sample(cc, 120)
     # short payloads with one odd character at either end; multi-segment streams at capacity -2..+3 bits
     aw = gens.awkward_short_cases(rnd)
-    cases += aw if tier == "thorough" else rnd.sample(aw, 70)
+    awc = [c for c in aw if c["tag"] == "awkward-core"]
+    cases += aw if tier == "thorough" else awc + rnd.sample([c for c in aw if c["tag"] != "awkward-core"], 40)
     ms = gens.multi_segment_boundary_items(rnd, caps, pairs if tier == "thorough" else rnd.sample(pairs, 8), prefixes=(3, 7, 11, 2))
     ms = ms if len(ms) <= (600 if tier == "thorough" else 60) else rnd.sample(ms, 600 if tier == "thorough" else 60)
     for (v, l, segs, d) in ms:
